@@ -282,6 +282,8 @@ kf("C16", "C16-user-function-named-isnan", "a user function named isnan (not a W
 # ---------------------------------------------------------------- C17 (bindings / interfaces)
 kf("C17", "C17-spirv-invariant-dropped", "the SPIR-V backend never emits the Invariant decoration: `@builtin(position) @invariant` outputs (bare or struct members) carry only BuiltIn Position",
    ["C17|spirv1.1:invariant|*", "C17|spirv1.4:invariant|*"])
+kf("C17", "C17-msl-struct-plus-bare-fragment-input", "MSL: a fragment entry point taking a struct parameter AND a bare @location parameter (`fn fs(inp: S, @location(4) x: f32)`) loses the struct's members: the [[stage_in]] struct holds only the bare parameter, the members' [[user(locN)]] attributes are emitted nowhere and the body reads `varyings_1.` with empty member names",
+   ["C17|msl:location-attribute:member|F5X/loc/mixed-bare/*", "C17|msl:location-attribute:member|F5X/loc/mixed-member/*"])
 
 # ---------------------------------------------------------------- C06 (compile-time evaluation); exact key lists in kf_c06_keys.json
 _c06 = json.load(open("kf_c06_keys.json"))
